@@ -22,7 +22,7 @@ META = {
     "encoded": ["csr.action.R.elaborate", "csr.action.W.elaborate", "csr.action.RW.elaborate",
                 "csr.action.RW1C.elaborate", "csr.action.RW1S.elaborate", "csr.action._Reserved.elaborate",
                 "csr.reg.FieldAction.__init__", "csr.reg.FieldPort.Signature"],
-    "also": 'widths 33/64; each storage action also inside a register between reserved fields (incl. signed / enum shapes), read through the element port',
+    "also": 'widths 33/64; shapes given as range objects (unsigned and signed) and as a flag enum; each storage action also inside a register between reserved fields (incl. signed / enum shapes), read through the element port',
     "bounds": "2 frames from an arbitrary (free) state + 1 frame from reset per configuration; widths 1-8,16 "
               "(thorough: 1-12,16,24,32) x unsigned/signed/enum x 4 init values",
     "outside": "behaviour while rst is asserted; shapes wider than 32 bits",
@@ -43,7 +43,14 @@ class E2s(am_enum.Enum, shape=signed(2)):
     B = 1
 
 
-SHAPES = {"e3": E3, "e2s": E2s}
+class F3(am_enum.IntFlag, shape=unsigned(3)):
+    RX = 1
+    TX = 2
+    ERR = 4
+
+
+# shape-castable objects other than Shape instances and ints: ranges (unsigned and signed) and a flag enum
+SHAPES = {"e3": E3, "e2s": E2s, "rng5": range(5), "rngs": range(-3, 4), "f3": F3}
 
 
 def _shape(desc):
@@ -57,13 +64,14 @@ def _shape(desc):
 
 def _width(desc):
     kind, w = desc
-    return {"e3": 3, "e2s": 2}.get(kind, w)
+    return {"e3": 3, "e2s": 2, "rng5": 3, "rngs": 3, "f3": 3}.get(kind, w)
 
 
 def configs(tier, seed):
     rnd = random.Random(seed)
     widths = [1, 2, 3, 5, 8, 33, 64] if tier == "quick" else [1, 2, 3, 4, 5, 6, 7, 8, 9, 12, 16, 24, 32, 33, 64, 65]
-    shapes = [("u", w) for w in widths] + [("s", w) for w in widths[:4] + widths[-1:]] + [("e3", 0), ("e2s", 0)]
+    shapes = [("u", w) for w in widths] + [("s", w) for w in widths[:4] + widths[-1:]] + [("e3", 0), ("e2s", 0)] + \
+        [("rng5", 0), ("rngs", 0), ("f3", 0)]
     out = []
     for sh in shapes:
         w = _width(sh)
@@ -75,6 +83,10 @@ def configs(tier, seed):
             inits = [0, 5, 7]
         if sh[0] == "e2s":
             inits = [0, 1, 2]
+        if sh[0] in ("rng5", "f3"):
+            inits = [0, 3, 4]
+        if sh[0] == "rngs":
+            inits = [0, 3, 5]          # (5 = -3 as a 3-bit pattern)
         for cls in ("RW", "RW1C", "RW1S"):
             if sh[0].startswith("e") and cls != "RW":
                 continue      # bitwise set/clear actions refuse enum shapes with a TypeError at elaboration
@@ -105,7 +117,7 @@ def _to_init(desc, init):
     """init as an int constant valid for the shape (signed / enum shapes take signed values)."""
     kind, w = desc
     w = _width(desc)
-    if kind in ("s", "e2s") and init >= (1 << (w - 1)):
+    if kind in ("s", "e2s", "rngs") and init >= (1 << (w - 1)):
         return init - (1 << w)
     return init
 
